@@ -205,7 +205,24 @@ def parse(repo):
     except ValueError as e:
         errors.append(str(e))
 
-    return {"tables": tables, "order": order, "langvar": langvar, "ops": ops, "copy_adv": copy_adv, "prints": pr,
+    # preprocess/text.sh: the two process_unicode stages of the text pipeline
+    stages = []
+    try:
+        sh = open(os.path.join(repo, "preprocess", "text.sh"), encoding="utf-8").read()
+        sh = "\n".join(l for l in sh.split("\n") if not l.lstrip().startswith("#"))
+        for m in re.finditer(r"process_unicode((?:\s+(?:--\w+|-l)(?:\s+\$\w+)?)*)", sh):
+            a = m.group(1).split()
+            stages.append(("--lower" in a, "--flatten" in a, "--normalize" in a, ("--language" in a) or ("-l" in a)))
+            for x in a:
+                if x.startswith("-") and x not in ("--lower", "--flatten", "--normalize", "--language", "-l"):
+                    raise ValueError("text.sh: unknown process_unicode option %s" % x)
+        if len(stages) != 2:
+            raise ValueError("text.sh: expected two process_unicode invocations, found %d" % len(stages))
+    except (OSError, ValueError) as e:
+        errors.append(str(e))
+        stages = None
+
+    return {"text_sh": stages, "tables": tables, "order": order, "langvar": langvar, "ops": ops, "copy_adv": copy_adv, "prints": pr,
             "default_language": dlang or "en", "errors": errors}
 
 
@@ -232,5 +249,9 @@ def generate(repo):
     L.append("Definition flatten_copy_advances_by_length : bool := %s." % copy_adv)
     L.append("(* process_unicode prints *cur (false: *str, i.e. str[0]) *)")
     L.append("Definition pu_prints_cur : bool := %s." % ("true" if pr == "cur" else "false"))
+    b = lambda x: "true" if x else "false"
+    L.append("(* preprocess/text.sh: (lower, flatten, normalize, language given) of its two process_unicode stages *)")
+    for i, st in enumerate(P["text_sh"]):
+        L.append("Definition text_sh_stage%d : bool * bool * bool * bool := (%s, %s, %s, %s)." % (i + 1, b(st[0]), b(st[1]), b(st[2]), b(st[3])))
     L.append("Definition pu_default_language : list Z := %s." % coq_list([ord(ch) for ch in dlang]))
     return "Src_flatten.v", "\n".join(L) + "\n"
